@@ -6,7 +6,7 @@ PROP = dict(
     id="C05",
     corr=["Model/FsmCorr.vo", "Model/C05Corr.vo", "Model/C05LndWatch.vo"],
     design_ref="DESIGN.md §6 C05",
-    technique="Coq: local pay-loop guard lifted to all crash histories (hist_local), invoice-CLTV bound from C01's invoice invariant, route CLTV from the C24 route models, window arithmetic; the FULL statement is refuted in Coq (Findings/F_C05_1.v) and on the real code by directed scenarios; step-level vm_compute correspondence + monitor with the confirmation height chosen by the simulated chain",
+    technique="Coq: local pay-loop guard lifted to all crash histories (hist_local), invoice-CLTV bound from C01's invoice invariant, route CLTV from the C24 route models, window arithmetic; the FULL statement is refuted in Coq (Findings/F_C05_1.v) and on the real code by directed scenarios; step-level vm_compute correspondence + monitor with the confirmation height chosen by the simulated chain; plus the lnd back-end's TxWatcher confirmation decision (model with explicit uint32 arithmetic, theorem c05_lnd_watcher_confirms_below_half_csv, real watcher over fake lnd RPC clients)",
     level_text="Machine-checked for all histories/environments/crash points: every Bitcoin claim payment is made at a height P with start <= P <= start+504 (uint32 arithmetic explicit) for an invoice with final CLTV f <= 504, so with the route CLTV of either back-end (CLN f+1, lnd f+4) the HTLC expires by start+1012; the full statement P+delta < conf+1008 holds whenever the opening tx was mined at least 5 blocks after the taker's start height (exact region). Outside that region the full statement is REFUTED (Coq witness + replay on the real code): the taker's code never learns the confirmation height. Known finding, reproduced on every run.",
     level_note="Trusted: Coq kernel; hand-written Gallina model of swap/actions.go / fsm.go tied by step-level correspondence; the route-delay models of clightning/lnd (Model/PayRoute.v, tied by C24's correspondence); BOLT-11 decoders return a non-negative final CLTV (visible hypothesis); heights are uint32 and far below 2^32 (visible hypothesis); the confirmation height is the simulated chain's choice (observer c05), constrained only by the 3-confirmation rule.",
     assumptions=[
